@@ -54,6 +54,7 @@ type WireEvent struct {
 // Net is the network.
 type Net struct {
 	mu      sync.Mutex
+	polMu   sync.Mutex // serializes the adversary policy
 	eps     map[string]*Endpoint
 	policy  Policy
 	log     []WireEvent
@@ -153,7 +154,12 @@ func (n *Net) send(src, dst *net.UDPAddr, data []byte) {
 	if pol == nil {
 		out = []Delivery{{Data: cp, Src: src, Dst: dst, Tag: "genuine"}}
 	} else {
+		// policies are closures of the test cases and keep state (captured
+		// messages, counters): one at a time, whichever endpoint's goroutine
+		// is sending
+		n.polMu.Lock()
 		out = pol(d)
+		n.polMu.Unlock()
 	}
 	for _, dl := range out {
 		n.deliver(seq, dl)
